@@ -206,6 +206,16 @@ def _is_asp(n: dawgie.pl.dag.Node) -> bool:
     return n.get('factory').__name__ == dawgie.Factories.analysis.name
 
 
+def _prune():
+    '''drop queue entries that have nothing pending and nothing executing'''
+    dawgie.pl.schedule.que = [
+        j
+        for j in que
+        if j.get('todo') or j.get('doing') or j.get('status') is State.running
+    ]
+    return
+
+
 def _priors(node):
     result = []
     if isinstance(node, dawgie.Algorithm):
@@ -275,10 +285,10 @@ def complete(job, runid, target, timing, status):
     elif target in job.get('doing'):
         job.get('doing').remove(target)
 
-    if not (job.get('todo') or job.get('doing')):
-        que.remove(job)
+    if not job.get('doing'):
         job.set('status', State.waiting)
         pass
+    _prune()
 
     history.append(
         {
@@ -346,6 +356,7 @@ def defer():
             pass
         pass
 
+    _prune()
     if delay:
         wait = min(delay)
         log.debug('defer() - next wake up time in %s seconds', str(round(wait)))
@@ -452,6 +463,7 @@ def organize(
         pass
     log.debug('organize() - setting queue')
     dawgie.pl.schedule.que = sorted(jobs.values(), key=lambda i: i.get('level'))
+    _prune()
     return
 
 
@@ -486,6 +498,12 @@ def periodics(factories):
 
 
 def purge(node: dawgie.pl.dag.Node, target: str):
+    _purge(node, target)
+    _prune()
+    return
+
+
+def _purge(node: dawgie.pl.dag.Node, target: str):
     if target in node.get('do', []):
         node.get('do').remove(target)
     if target in node.get('doing', []):
@@ -494,7 +512,7 @@ def purge(node: dawgie.pl.dag.Node, target: str):
         node.get('todo').remove(target)
 
     for child in node:
-        purge(child, target)
+        _purge(child, target)
     return
 
 
